@@ -13,26 +13,34 @@ PROTOCOL = 'typing.Protocol'
 
 
 class FlagSem(Semantics):
-    """State = frozenset of flags; FLAGGER(fn, call) returns the flags a call sets (or ())."""
+    """State = frozenset of flags; FLAGGER(ex, fn, call, state) returns the flags a call sets (or ())."""
 
-    def __init__(self, flagger: Callable[[Executor, FuncInfo, ast.Call], tuple]):
+    def __init__(self, flagger: Callable[[Executor, FuncInfo, ast.Call, frozenset], tuple]):
         self.flagger = flagger
 
     def call(self, ex, fn, node, state):
-        flags = self.flagger(ex, fn, node)
+        flags = self.flagger(ex, fn, node, state)
         if flags:
             state = frozenset(state | set(flags))
         return ex.default_call(fn, node, state)
 
     def tracked(self, ex, fn, node):
-        return bool(self.flagger(ex, fn, node))
+        return bool(self.flagger(ex, fn, node, frozenset()))
+
+
+def run_flags(a: Analysis, fn: FuncInfo, flagger, hole=None) -> set[Out]:
+    ex = Executor(a.p, a.ct, a.resolver, FlagSem(flagger), raises=a.raises)
+    return ex.run(fn, frozenset(), hole=hole)
 
 
 def exits_missing_flag(a: Analysis, fn: FuncInfo, flagger, flag: str, kinds=('return',)) -> list[Out]:
     """Outcomes of FN (of the given kinds) that were reached without FLAG being set."""
-    ex = Executor(a.p, a.ct, a.resolver, FlagSem(flagger), raises=a.raises)
-    outs = ex.run(fn, frozenset())
-    return [o for o in outs if o.kind in kinds and flag not in o.state]
+    return [o for o in run_flags(a, fn, flagger) if o.kind in kinds and flag not in o.state]
+
+
+def any_flag(a: Analysis, fn: FuncInfo, flagger, flag: str) -> bool:
+    """True if some path through FN sets FLAG (at any exit, normal or exceptional)."""
+    return any(flag in o.state for o in run_flags(a, fn, flagger))
 
 
 def is_super_call(node: ast.Call, method: str) -> bool:
@@ -63,7 +71,7 @@ def rule_chain(a: Analysis, rule_id: str) -> RuleReport:
             if ci and '__init_subclass__' in ci.methods:
                 by_def.setdefault(d, []).append(q)
 
-    def flagger(ex, fn, call):
+    def flagger(ex, fn, call, state):
         return ('chained',) if is_super_call(call, '__init_subclass__') else ()
 
     for d, affected in sorted(by_def.items()):
